@@ -10,7 +10,7 @@
     Proofs: Proofs/YearlyProofs.v, Proofs/C06Proofs.v. *)
 From Coq Require Import List ZArith Bool Lia Sorted QArith Qabs.
 From RP2V Require Import Base.Prelude Base.Time Base.Dec Model.Types Model.Generated Model.Pipeline Model.Computed Model.ComputedSpec
-  Proofs.DecProofs Proofs.FilterProofs Proofs.C06Proofs Proofs.ComputedProofs Proofs.FiatSumProofs.
+  Proofs.DecProofs Proofs.FilterProofs Proofs.C06Proofs Proofs.ComputedProofs Proofs.FiatSumProofs Proofs.C04Reassembly Proofs.C06Closed.
 Import ListNotations.
 Open Scope Z_scope.
 
@@ -99,6 +99,32 @@ Theorem C06_fiat_totals : forall period to_day from_year gls yl,
    Qabs (qsumf (fun L => to_q (y_gain L)) yl - qsum (map (fun g => odflt (g_gain g)) counted)) <= total_bound period to_day gls yl (fun g => odflt (g_gain g)))%Q.
 Proof. exact c06_fiat_totals. Qed.
 
+(** The same in closed form (a-priori): a line with n fractions is within n x 1e-30 x (sum of the magnitudes of its
+    fractions' figures) of the exact sum, and each grand total within N x 1e-30 x (sum of the magnitudes of the figures of
+    all N counted fractions); [nq n] = n as a rational, 2 x EPS = 1e-30, [qabs_sum l] = sum of |value|; the side
+    conditions say n, N <= 1e30.  With all magnitudes <= B this is n^2 x 1e-30 x B (C06_magnitudes_below_max). *)
+Theorem C06_line_fiat_error_closed : forall period to_day from_year gls yl,
+  yearly_list period to_day from_year gls = Ok yl ->
+  forall L, In L yl ->
+  let mine := filter (line_has_key period L) (take_until g_day to_day gls) in
+  let n := nq (length mine) in
+  (2 * n * EPS <= 1 ->
+   Qabs (to_q (y_fiat L) - qsum (map (fun g => odflt (g_proceeds g)) mine)) <= n * (2 * EPS) * qabs_sum (map (fun g => odflt (g_proceeds g)) mine) /\
+   Qabs (to_q (y_cost L) - qsum (map (fun g => odflt (g_cost g)) mine)) <= n * (2 * EPS) * qabs_sum (map (fun g => odflt (g_cost g)) mine) /\
+   Qabs (to_q (y_gain L) - qsum (map (fun g => odflt (g_gain g)) mine)) <= n * (2 * EPS) * qabs_sum (map (fun g => odflt (g_gain g)) mine))%Q.
+Proof. exact c06_line_fiat_closed. Qed.
+Theorem C06_fiat_totals_closed : forall period to_day from_year gls yl,
+  yearly_list period to_day from_year gls = Ok yl ->
+  let counted := filter (fun g => from_year <=? g_year g) (take_until g_day to_day gls) in
+  let N := nq (length counted) in
+  (2 * N * EPS <= 1 ->
+   Qabs (qsumf (fun L => to_q (y_fiat L)) yl - qsum (map (fun g => odflt (g_proceeds g)) counted)) <= N * (2 * EPS) * qabs_sum (map (fun g => odflt (g_proceeds g)) counted) /\
+   Qabs (qsumf (fun L => to_q (y_cost L)) yl - qsum (map (fun g => odflt (g_cost g)) counted)) <= N * (2 * EPS) * qabs_sum (map (fun g => odflt (g_cost g)) counted) /\
+   Qabs (qsumf (fun L => to_q (y_gain L)) yl - qsum (map (fun g => odflt (g_gain g)) counted)) <= N * (2 * EPS) * qabs_sum (map (fun g => odflt (g_gain g)) counted))%Q.
+Proof. exact c06_fiat_totals_closed_all. Qed.
+Theorem C06_magnitudes_below_max : forall l B, (forall x, In x l -> Qabs (to_q x) <= B)%Q -> (qabs_sum l <= nq (length l) * B)%Q.
+Proof. exact qabs_sum_le_max. Qed.
+
 (** the from-date only hides the lines of earlier years; the lines of the remaining years are unchanged *)
 Theorem C06_from_year_only_hides_lines : forall period to_day fy fy' gls yl yl',
   yearly_list period to_day fy gls = Ok yl -> yearly_list period to_day fy' gls = Ok yl' -> fy' <= fy ->
@@ -147,7 +173,8 @@ Proof. exact c06_to_date_refuted. Qed.
     [c06_example_whole], [c06_example_cut] (to-date inside 2020, from-year 2020), [c06_glsA_sorted],
     [c06_example_run] (the same through [compute]), and the instances [c06_line_is_sum_instance],
     [c06_counts_instance] of the theorems above; Proofs/FiatSumProofs.v: [c06_fiat_totals_instance],
-    [c06_total_bound_small] (the bound on the grand total of the proceeds of history A is 1.5e-27). *)
+    [c06_total_bound_small] (the bound on the grand total of the proceeds of history A is 1.5e-27);
+    Proofs/C06Closed.v: [c06_closed_instance], [c06_closed_bound_small] (closed-form bound for history A below 1e-25). *)
 
 Print Assumptions C06_summary_of_run.
 Print Assumptions C06_line_is_sum.
@@ -159,6 +186,9 @@ Print Assumptions C06_keys_distinct.
 Print Assumptions C06_grand_total_crypto.
 Print Assumptions C06_line_fiat_error.
 Print Assumptions C06_fiat_totals.
+Print Assumptions C06_line_fiat_error_closed.
+Print Assumptions C06_fiat_totals_closed.
+Print Assumptions C06_magnitudes_below_max.
 Print Assumptions C06_from_year_only_hides_lines.
 Print Assumptions C06_order.
 Print Assumptions C06_line_is_sum_of_all_dated_fractions.
